@@ -36,7 +36,8 @@ BUILTIN_PURE = {'len', 'range', 'int', 'float', 'str', 'abs', 'max', 'min', 'sum
                 'super', 'bool', 'complex', 'sorted', 'map', 'filter', 'iter', 'next', 'hasattr', 'getattr'}
 CONTAINER_BUILTINS = {'list', 'tuple', 'reversed', 'enumerate', 'zip', 'set', 'sorted', 'iter'}
 FANCY_DEF_FUNCS = {'repeat', 'repeat_interleave', 'logical_and', 'logical_or', 'logical_not', 'nonzero', 'array',
-                   'tensor', 'arange', 'ge', 'flatten', 'tile', 'where', 'abs'}
+                   'tensor', 'arange', 'ge', 'flatten', 'tile', 'where', 'abs', 'empty', 'zeros', 'ones', 'full', 'flatnonzero',
+                   'argsort', 'argwhere', 'cumsum', 'empty_like', 'zeros_like', 'asarray', 'concatenate', 'cat', 'stack'}
 
 EMPTY = frozenset()
 
